@@ -69,6 +69,7 @@ type Term struct {
 	S    string
 	Sort Sort
 	// constant payloads
+	Def     string // for definitional assertions (= sym term): the defined symbol
 	IsConst bool
 	BVal    *big.Int // for BV / Int constants
 	BoolVal bool
@@ -572,6 +573,69 @@ func (d *Decls) Fun(name string, res Sort, args ...*Term) *Term {
 		return Sym(name, res)
 	}
 	return App(name, res, args...)
+}
+
+func (d *Decls) declared(name string) bool {
+	if _, ok := d.consts[name]; ok {
+		return true
+	}
+	_, ok := d.funs[name]
+	return ok
+}
+
+// TextFor emits only the declarations whose symbol occurs in used.
+func (d *Decls) TextFor(used map[string]bool) string {
+	var b strings.Builder
+	var sorts []string
+	for s := range d.sorts {
+		sorts = append(sorts, s)
+	}
+	sort.Strings(sorts)
+	for _, s := range sorts {
+		fmt.Fprintf(&b, "(declare-sort %s 0)\n", s)
+	}
+	for _, n := range d.order {
+		if strings.HasPrefix(n, "fun:") {
+			if used[n[4:]] {
+				b.WriteString(d.funs[n[4:]])
+				b.WriteByte('\n')
+			}
+		} else if used[n] {
+			fmt.Fprintf(&b, "(declare-const %s %s)\n", n, d.consts[n].String())
+		}
+	}
+	return b.String()
+}
+
+// symbolsOf adds every identifier-like token of an SMT term string to set.
+func symbolsOf(s string, set map[string]bool) {
+	i := 0
+	for i < len(s) {
+		c := s[i]
+		switch {
+		case c == '|':
+			j := strings.IndexByte(s[i+1:], '|')
+			if j < 0 {
+				return
+			}
+			set[s[i:i+j+2]] = true
+			i += j + 2
+		case c >= 'a' && c <= 'z' || c >= 'A' && c <= 'Z' || c == '_':
+			j := i
+			for j < len(s) {
+				d := s[j]
+				if d >= 'a' && d <= 'z' || d >= 'A' && d <= 'Z' || d >= '0' && d <= '9' || d == '_' || d == '.' || d == '!' || d == '?' || d == ':' || d == '-' {
+					j++
+				} else {
+					break
+				}
+			}
+			set[s[i:j]] = true
+			i = j
+		default:
+			i++
+		}
+	}
 }
 
 func (d *Decls) Text() string {
